@@ -1532,6 +1532,10 @@ func init() {
 			"((draw a (u 0 255)) (repeat (act (draw x (u 0 255)) (if (ge a 5) (if (ge x 7) (fatal 1))))))",
 			"((draw a (u 0 255)) (repeat (act (draw x (u 0 255)) (if (ge a 5) (if (lt a 10) (if (ge x 7) (fatal 1)))))))",
 			"((draw a (u 0 255)) (draw b (u 0 255)) (repeat (act (draw x (u 0 255)) (if (ge x 200) (fatal 1))) (act (draw y (slice (u 0 9) 0 3)) (if (ge b 100) (if (lenge y 2) (fatal 2))))))",
+			// the failing statement sits at a call depth that is drawn: the same statement reached through more or fewer
+			// recursive calls is another call stack, hence another failure
+			"((draw d (i 0 6)) (draw a (i 0 1000)) (deep d (if (ge a 500) (fatal 1))))",
+			"((draw d (u 1 9)) (draw a (slice (bool) 0 5)) (deep d (if (lenge a 2) (error 1))) (if (lenge a 4) (fatal 2)))",
 		}
 		ncollapse := len(collapseCorpus) * 4 * scale
 		for i := 0; i < 40*scale+ncollapse; i++ {
@@ -1709,6 +1713,44 @@ func init() {
 		} else {
 			m.tag("go-test-unavailable:" + what)
 		}
+		// a failure replayed from a fail file: a seed offered in its report reproduces the failure, too
+		for i := 0; i < 3*scale; i++ {
+			src := []string{"((draw a (i 0 99)) (draw b (slice (bool) 0 4)) (if (ge a 60) (fatal 1)))", "((draw x (u 0 18446744073709551615)) (if (mod x 16 5) (error 1)))",
+				"((draw a (i 0 99)) (if (lt a 20) (skip)) (if (ge a 90) (fatal 1)))"}[i%3]
+			prog := mustSX(src)
+			dir, _ := os.MkdirTemp(tmp, "c07ff-")
+			fl := baseFlags()
+			fl.Nofailfile = false
+			fl.Seed = r.u64() | 1
+			var run1, run2 *tbRun
+			inDir(dir, func() { run1 = runCheckTB(prog, fl, "TestSeedOffer", nil) })
+			kind1, _, msg1 := verdictMsg(run1.verdict)
+			if kind1 == "failed" && len(listFailFiles(dir, "TestSeedOffer")) == 1 {
+				fl2 := fl
+				fl2.Seed = r.u64() | 1
+				inDir(dir, func() { run2 = runCheckTB(prog, fl2, "TestSeedOffer", nil) })
+				m.tag("seed-offered-after-failfile-replay")
+				m.eval("seed-offer "+src+fmt.Sprint(fl.Seed), true)
+				if k := strings.LastIndex(run2.verdict, ":seed="); k >= 0 {
+					if seed2, err := strconv.ParseUint(run2.verdict[k+6:], 10, 64); err == nil && seed2 != 0 {
+						fl3 := fl
+						fl3.Seed = seed2
+						fl3.Nofailfile = true
+						clean, _ := os.MkdirTemp(tmp, "c07fc-")
+						var run3 *tbRun
+						inDir(clean, func() { run3 = runCheckTB(prog, fl3, "TestSeedOffer", nil) })
+						kind3, valid3, msg3 := verdictMsg(run3.verdict)
+						if kind3 != "failed" || valid3 != "0" || msg3 != msg1 {
+							p := flagsStr(fl2)
+							p["prog"] = src
+							m.violate(violation{"C07", "seed", fmt.Sprintf("the report of a failure replayed from the fail file offers -rapid.seed=%d; a run with that seed gives %s (the failure: %s)", seed2, run3.verdict, run1.verdict), p})
+						}
+						os.RemoveAll(clean)
+					}
+				}
+			}
+			os.RemoveAll(dir)
+		}
 		for i := 0; i < 40*scale; i++ {
 			// fails for a value class of known frequency ⇒ first failing index varies
 			th := []int{0, 30, 60, 90, 97, 99}[r.intn(6)]
@@ -1793,6 +1835,47 @@ func init() {
 			if calls != big.checks || tb.failed {
 				m.violate(violation{"C09", "counts", fmt.Sprintf("checks=%d with the deadline %v away: the property ran %d times (test failed: %v)", big.checks, big.until, calls, tb.failed),
 					map[string]string{"checks": fmt.Sprint(big.checks), "until": big.until.String()}})
+			}
+		}
+		// a state machine whose invariant check skips (after an action that drew): the test case is skipped, it does not
+		// count towards the promised number, and a property that skips almost always does not pass
+		for _, tc := range []struct {
+			src    string
+			checks int
+		}{
+			{"((draw x (i 0 2)) (repeat (check (if (ge x 5) (skip))) (act (draw x (i 0 9)))))", 20},
+			{"((draw x (i 0 0)) (repeat (check (emit 90) (if (ge x 1) (skip))) (act (emit 100) (draw x (i 1 9)) (emit 200))))", 50},
+			{"((draw x (i 0 2)) (repeat (check (if (ge x 8) (skip))) (act (draw x (i 0 9))) (act (draw y (bool)))))", 17},
+		} {
+			fl := baseFlags()
+			fl.Checks = tc.checks
+			fl.Seed = r.u64() | 1
+			run := runCheckTB(mustSX(tc.src), fl, "c09sm", nil)
+			kind, v, _ := verdictMsg(run.verdict)
+			valid, skippedValid := 0, 0
+			for _, inv := range run.in.invs {
+				if inv.ended == "ret" && !inv.checkSkipped {
+					valid++
+				}
+				if inv.ended == "ret" && inv.checkSkipped {
+					skippedValid++
+				}
+			}
+			m.tag("check-skips-" + kind)
+			m.eval("check-skips "+tc.src+fmt.Sprint(fl.Seed), true)
+			what := ""
+			switch {
+			case skippedValid > 0:
+				what = fmt.Sprintf("%d test cases in which the invariant check called Skip ended as valid ones", skippedValid)
+			case kind == "pass" && (valid != tc.checks || v != strconv.Itoa(tc.checks)):
+				what = fmt.Sprintf("passed with %d valid test cases (reported %s), checks=%d", valid, v, tc.checks)
+			case kind != "pass" && kind != "only":
+				what = "unexpected verdict " + run.verdict
+			}
+			if what != "" {
+				p := flagsStr(fl)
+				p["prog"] = tc.src
+				m.violate(violation{"C09", "counts", what, p})
 			}
 		}
 		for i := 0; i < 60*scale; i++ {
@@ -2004,6 +2087,25 @@ func init() {
 						}
 						if n := len(listFailFiles(dir, name)); what == "" && n != 1 {
 							what = fmt.Sprintf("%d fail files after the rerun (the failure came from the fail file)", n)
+						}
+					}
+					// the failure came from the fail file: if the report offers a seed as well, that seed reproduces it
+					if what == "" {
+						if k := strings.LastIndex(run2.verdict, ":seed="); k >= 0 {
+							if seed2, err := strconv.ParseUint(run2.verdict[k+6:], 10, 64); err == nil && seed2 != 0 {
+								fl5 := fl
+								fl5.Seed = seed2
+								fl5.Nofailfile = true
+								clean5, _ := os.MkdirTemp(tmp, "c06s-")
+								var run5 *tbRun
+								inDir(clean5, func() { run5 = runCheckTB(prog, fl5, name, logOutput) })
+								kind5, valid5, msg5 := verdictMsg(run5.verdict)
+								m.tag("failfile-report-with-seed")
+								if kind5 != "failed" || valid5 != "0" || msg5 != msg1 {
+									what = fmt.Sprintf("the report of a failure replayed from the fail file offers -rapid.seed=%d; with that seed: %s", seed2, run5.verdict)
+								}
+								os.RemoveAll(clean5)
+							}
 						}
 					}
 					// explicit -rapid.failfile as well
